@@ -172,20 +172,28 @@ Example C25_bx_example :
   built_unders (build [(0, MNone); (1, MExplicit 0); (2, MDefault); (3, MNone); (4, MDefault)]) 0 = [1; 2].
 Proof. vm_compute. split; reflexivity. Qed.
 
-(* The verbs do / be file an act under the explicit nabe= when one is given,
-   else under the context chosen with at(...), and native means endo. *)
-Theorem C25_verb_context : forall explicit at_ctx,
-  verb_ctx explicit at_ctx =
+(* The verbs do / be file an act under the explicit nabe= when one is given
+   (also when it is "endo" and the act class's own default is another
+   context), else under the context chosen with at(...); native means the
+   act class's own default. *)
+Theorem C25_verb_context : forall explicit at_ctx dflt,
+  verb_ctx explicit at_ctx dflt =
     match explicit with
-    | Some e => if Nat.eqb e NATIVE then ENDO else e
-    | None => if Nat.eqb at_ctx NATIVE then ENDO else at_ctx
+    | Some e => if Nat.eqb e NATIVE then dflt else e
+    | None => if Nat.eqb at_ctx NATIVE then dflt else at_ctx
     end.
 Proof. exact verb_ctx_rule. Qed.
 Print Assumptions C25_verb_context.
 
+Theorem C25_verb_context_explicit : forall e at_ctx dflt,
+  e <> NATIVE -> verb_ctx (Some e) at_ctx dflt = e /\ verb_ctx None e dflt = e.
+Proof. intros. split; [now apply verb_ctx_explicit | now apply verb_ctx_at]. Qed.
+Print Assumptions C25_verb_context_explicit.
+
 (* Any sequence of at / do / be statements in which every act is declared for
-   its own context — by nabe=, or by the current at() context — files every
-   act in the list of that context (context S k for an act of kind k). *)
+   its own context — by nabe=, or by the current at() context, or by its
+   class default under native — files every act in the list of that context
+   (context S k for an act of kind k). *)
 Theorem C25_filed_as_declared : forall ss at_ctx,
   all_well_declared at_ctx ss ->
   Forall (fun f => fst f = S (fst (snd f))) (file_from at_ctx ss).
@@ -193,9 +201,11 @@ Proof. exact filed_as_declared. Qed.
 Print Assumptions C25_filed_as_declared.
 
 Example C25_verbs_example :
-  (* at("exdo"); be(...); at("rexdo"); be(...); be(..., nabe="rendo"); at(); do(...) *)
-  file_acts [SAt 9; SAct None 8 0; SAt 10; SAct None 9 0; SAct (Some 3) 2 0; SAt 0; SAct None 4 0] =
-    [(9, (8, 0)); (10, (9, 0)); (3, (2, 0)); (5, (4, 0))].
+  (* at("exdo"); be(...); at("rexdo"); be(...); be(..., nabe="rendo"); at(); do(...);
+     at("endo"); do("count") [class default redo]; do("discount", nabe="endo") [class default exdo] *)
+  file_acts [SAt 9; SAct None 5 8 0; SAt 10; SAct None 5 9 0; SAct (Some 3) 5 2 0; SAt 0; SAct None 5 4 0;
+             SAt 5; SAct None 6 4 1; SAct (Some 5) 9 4 2] =
+    [(9, (8, 0)); (10, (9, 0)); (3, (2, 0)); (5, (4, 0)); (5, (4, 1)); (5, (4, 2))].
 Proof. reflexivity. Qed.
 
 (* Non-vacuity.  Forest 0 > (1 > (2, 3), 4), two acts in every list.  From
